@@ -106,7 +106,8 @@ mod verif_native_compactify {
     fn compactify_renumbers_densely_in_order() {
         let alphabet = [Op::Prev(0), Op::Prev(1), Op::Prev(2), Op::Cur(0), Op::Cur(1), Op::Cur(2), Op::New, Op::Open];
         let mut cases = 0u64;
-        for len in 0..=4usize {
+        let max_len = if std::env::var("VERIF_TIER").map(|v| v == "thorough").unwrap_or(false) { 5usize } else { 4 };
+        for len in 0..=max_len {
             let total = alphabet.len().pow(len as u32);
             for mut code in 0..total {
                 let mut ops = vec![];
